@@ -138,3 +138,18 @@ G4_face = [
     r('Face3D.flip', [FACE]),
 ]
 LAYERS.append(('G4_face', G4_face))
+
+G5_bound = [
+    r('Base1DIn2D.min', [SEG2], name='Base1DIn2D_min'), r('Base1DIn2D.max', [SEG2], name='Base1DIn2D_max'),
+    r('Base1DIn2D.center', [SEG2], name='Base1DIn2D_center'),
+    r('Base1DIn3D.min', [SEG3], name='Base1DIn3D_min'), r('Base1DIn3D.max', [SEG3], name='Base1DIn3D_max'),
+    r('Base1DIn3D.center', [SEG3], name='Base1DIn3D_center'),
+    r('bounding:bounding_domain_x', [TLst(POLY2)], name='bounding_domain_x'),
+    r('bounding:bounding_domain_y', [TLst(POLY2)], name='bounding_domain_y'),
+    r('bounding:overlapping_bounding_rect', [POLY2, POLY2, Q], name='overlapping_bounding_rect'),
+    r('Polygon2D.overlapping_bounding_rect', [POLY2, POLY2, Q], name='Polygon2D_overlapping_bounding_rect'),
+    r('Arc2D._angle_quadrant', [Q], name='Arc2D_angle_quadrant'),
+    r('Arc2D.min', [ARC2], name='Arc2D_min'), r('Arc2D.max', [ARC2], name='Arc2D_max'),
+    r('Sphere.min', [SPH]), r('Sphere.max', [SPH]),
+]
+LAYERS.append(('G5_bound', G5_bound))
